@@ -24,7 +24,7 @@ CLAIMED = {
         note="Trusted: Coq kernel; hand model Model/Specs.v; thresholds read as written decimals; codon tables are data (log-frequencies supplied as exact values of the implementation's floats).",
         technique="Coq proof (formula = algorithm, coverage via grouping lemmas) + vm_compute correspondence + independent reference oracles", design="6/C10"),
     "C13": dict(
-        text="Theorems (Coq): CircularDnaOptimizationProblem.resolve_constraints returns normally only if the circular evaluation of every constraint passes (final-check dominance, whatever the solver did on the three-copy view) and keeps the length; the circular evaluation sees across the origin (a passing whole-sequence AvoidPattern / windowed GC on the three-copy view has no occurrence / breaching window in s + s[:k-1]); edit mirroring yields three equal copies and takes over single-copy edits. Circular evaluations, specification shifting and mirroring tied by correspondence; solves checked by an independent cyclic scan, all_constraints_pass(autopass=False) and hard-restriction membership on the implementation.",
+        text="Theorems (Coq): CircularDnaOptimizationProblem.resolve_constraints returns normally only if the circular evaluation of every constraint passes (final-check dominance, whatever the solver did on the three-copy view) and keeps the length; the circular evaluation sees across the origin (a passing whole-sequence AvoidPattern / windowed GC on the three-copy view has no occurrence / breaching window in s + s[:k-1]); edit mirroring yields three equal copies and takes over single-copy edits; AvoidChanges (location, indices, allowance) passes the circular evaluation iff it passes on the sequence itself, its score being the allowance minus the number of edited positions. Circular evaluations (AvoidChanges after edits included), specification shifting and mirroring tied by correspondence; solves checked by an independent cyclic scan, all_constraints_pass(autopass=False) and hard-restriction membership on the implementation.",
         note="Trusted: Coq kernel; the solver run on the three-copy view is abstract in the theorem (its linear version is the subject of C01/C12); hard restrictions after a circular solve are decided by the oracle, not by a theorem.",
         technique="Coq proof (final-check dominance, wrap-around window lemmas) + vm_compute correspondence + cyclic-scan oracle", design="6/C13"),
     "C16": dict(
